@@ -297,6 +297,19 @@ func runC09(c *Ctx) {
 				}
 			}
 		}
+		// the "no rewrite => unchanged" case may live in the caller: the remover is then judged for
+		// exceptions that have a rewrite only
+		care := True
+		hasUnchanged := false
+		for leaf := range u.Leaves(res) {
+			if leaf == nrules {
+				hasUnchanged = true
+			}
+		}
+		if !hasUnchanged && callerSkipsExactlyNoRewrite(c, dr, rme) {
+			care = u.bdd.Not(noRewrite)
+		}
+		same := func(a, b Ref) bool { return u.bdd.And(a, care) == u.bdd.And(b, care) }
 		nTables := 0
 		if len(emptyAtoms) != 1 {
 			bad = fmt.Sprintf("UNDECIDED: expected exactly one test for an empty exception value, found %d", len(emptyAtoms))
@@ -316,7 +329,7 @@ func runC09(c *Ctx) {
 						bad = "the list is returned unchanged under " + clip(u.ShowBool(cond), 120) + ", documented: only when the rule has no rewrite"
 					}
 				case leaf.IsNil():
-					if cond != u.bdd.And(u.bdd.Not(noRewrite), u.bdd.And(empty, excImp)) {
+					if !same(cond, u.bdd.And(u.bdd.Not(noRewrite), u.bdd.And(empty, excImp))) {
 						bad = "everything is removed under " + clip(u.ShowBool(cond), 120) + ", documented: exactly for an important exception with an empty value"
 					}
 				case leaf.Op == "call" && strings.HasPrefix(leaf.Aux, "slices.DeleteFunc") && len(leaf.Args) == 2 && leaf.Args[0] == nrules && leaf.Args[1].Op == "lambda":
@@ -345,14 +358,14 @@ func runC09(c *Ctx) {
 							continue
 						}
 						P := u.bdd.Restrict(u.bdd.Cofactor(P0, u.atomIx[ea.key], pol), cond)
-						switch cond {
-						case u.bdd.And(u.bdd.Not(noRewrite), u.bdd.And(empty, u.bdd.Not(excImp))):
+						switch {
+						case same(cond, u.bdd.And(u.bdd.Not(noRewrite), u.bdd.And(empty, u.bdd.Not(excImp)))):
 							// P is evaluated under this case condition
 							got := u.bdd.Restrict(P, cond)
 							if got != u.bdd.Not(nrImp) {
 								bad = "a non-important empty exception must delete exactly the non-important rewrites; predicate is " + clip(u.ShowBool(got), 120)
 							}
-						case u.bdd.And(u.bdd.Not(noRewrite), u.bdd.Not(empty)):
+						case same(cond, u.bdd.And(u.bdd.Not(noRewrite), u.bdd.Not(empty))):
 							nTables++
 							H := P
 							roles := map[string]*E{}
@@ -622,6 +635,9 @@ func runC09(c *Ctx) {
 			ro := rangedOver(l)
 			full := ro != nil && ro.Full && onlyExhaustionExit(l)
 			uncond := s.RCAt(site) == u.bdd.And(s.RC[l.Header], contCond(u, s, l))
+			if !uncond && callerSkipsExactlyNoRewrite(c, dr, rme) {
+				uncond = true // skipped exactly when the exception has no rewrite: nothing to remove (C09.R3 judges the remover for the others)
+			}
 			c.Check(full && uncond, "C09.R7", key, site.Pos(), "complete range, no early exit, remover called in every iteration",
 				fmt.Sprintf("the loop does not apply every exception (complete range without early exit=%v, called unconditionally=%v)", full, uncond))
 			// the exception list: appended exactly when Whitelist, in a full scan of the DNSRewritesAll() result
@@ -719,4 +735,34 @@ func derivesFrom(v ssa.Value, ph *ssa.Phi, depth int) bool {
 		return derivesFrom(x.X, ph, depth+1)
 	}
 	return false
+}
+
+// callerSkipsExactlyNoRewrite: every call of the remover in DNSRewrites sits in a loop over the
+// exceptions and is skipped, within an iteration, exactly when the exception has no rewrite
+// (exc.DNSRewrite == nil) — the remover's own "nothing to remove" case moved to the caller.
+func callerSkipsExactlyNoRewrite(c *Ctx, dr, rme *ssa.Function) bool {
+	g := NewGate(c.P)
+	g.Inline = inlineOnly()
+	s := g.Eval(dr)
+	u := g.U
+	loops := loopsOf(dr)
+	sites := callsTo(dr, rme)
+	if len(sites) == 0 {
+		return false
+	}
+	for _, site := range sites {
+		l := innermostLoop(loops, site.Block())
+		ce := s.Env[site.(ssa.Value)]
+		if l == nil || ce == nil || len(ce.Args) < 2 {
+			return false
+		}
+		body := u.bdd.And(s.RC[l.Header], contCond(u, s, l))
+		rc := s.RCAt(site)
+		exc := ce.Args[1]
+		noRw := u.ToBool(u.Eq(u.Field(exc, "DNSRewrite", nil), u.mk("nil", "", nil)))
+		if rc != u.bdd.And(body, u.bdd.Not(noRw)) {
+			return false
+		}
+	}
+	return true
 }
